@@ -98,6 +98,11 @@ func (w *vkConcWorld) do(t int, o vkCOp) {
 		})
 	case "len":
 		call.ResVal = w.c.Len()
+	case "clear": // the table's own Clear (exported by the table type behind Cache; documented as segment-by-segment)
+		if w.curSeg != nil {
+			w.curSeg[t] = -1 // touches every segment by design: not a writer "to one segment"
+		}
+		w.c.data.Clear()
 	}
 	call.Ret = w.clock()
 	w.mu.Lock()
@@ -164,6 +169,12 @@ func vkStep(s vkLinState, c vkCall, evict bool) []vkLinState {
 		n := s.clone()
 		delete(n, c.Op.K)
 		return []vkLinState{n}
+	case "clrkey":
+		// Clear works segment by segment: every key is removed (or, when it was stored after its segment
+		// had been passed, not) at some moment of its own inside the call's interval
+		n := s.clone()
+		delete(n, c.Op.K)
+		return []vkLinState{s, n}
 	case "get":
 		v, ok := s[c.Op.K]
 		if ok != c.ResOK || (ok && v != c.ResVal) {
@@ -211,6 +222,16 @@ func vkLinearizable(init vkLinState, calls0 []vkCall, final vkLinState, evict bo
 					after[len(calls)] = i
 					calls = append(calls, e)
 				}
+			}
+		}
+	}
+	for _, c := range calls0 {
+		if c.Op.Op == "clear" {
+			for k := 0; k < 6; k++ {
+				e := c
+				e.Op.Op = "clrkey"
+				e.Op.K = k
+				calls = append(calls, e)
 			}
 		}
 	}
@@ -392,7 +413,7 @@ func vkConcScenarioFn(sc vkConcScenario) sched.Scenario {
 				if w.held[t] > 1 && w.nested == "" {
 					w.nested = fmt.Sprintf("thread T%d holds two segment locks at once (%s)", t, sc)
 				}
-				if ev == "lock" && sc.Capacity >= 50 {
+				if ev == "lock" && sc.Capacity >= 50 && w.curSeg[t] >= 0 {
 					m := w.lockUse[obj]
 					if m == nil {
 						m = map[int]bool{}
@@ -470,7 +491,7 @@ func vkConcScenarios(thorough bool) []vkConcScenario {
 				for c := b; c < len(ops); c++ {
 					w := 0
 					for _, o := range []vkCOp{ops[a], ops[b], ops[c]} {
-						if o.Op == "add" || o.Op == "rem" || o.Op == "cas" || o.Op == "cad" {
+						if o.Op == "add" || o.Op == "rem" || o.Op == "cas" || o.Op == "cad" || o.Op == "clear" {
 							w++
 						}
 					}
@@ -500,6 +521,20 @@ func vkConcScenarios(thorough bool) []vkConcScenario {
 				if thorough {
 					out = append(out, vkConcScenario{Capacity: p.cap, Prefill: p.pre, Threads: [][]vkCOp{two[a], two[b], {{Op: "add", K: 1, V: 2}}}})
 				}
+			}
+		}
+	}
+	// the table's own Clear (segment by segment) against one and two writers / readers
+	clr := []vkCOp{{Op: "add", K: 0, V: 1}, {Op: "add", K: 3, V: 1}, {Op: "add", K: 5, V: 1}, {Op: "rem", K: 0}, {Op: "get", K: 0},
+		{Op: "cas", K: 0, Old: 0, V: 2}, {Op: "cad", K: 1, Old: 0}}
+	for _, p := range prefills {
+		for a := 0; a < len(clr); a++ {
+			out = append(out, vkConcScenario{Capacity: p.cap, Prefill: p.pre, Threads: [][]vkCOp{{{Op: "clear"}}, {clr[a]}}})
+			for b := a; b < len(clr); b++ {
+				if !thorough && b > a+2 {
+					continue
+				}
+				out = append(out, vkConcScenario{Capacity: p.cap, Prefill: p.pre, Threads: [][]vkCOp{{{Op: "clear"}}, {clr[a]}, {clr[b]}}})
 			}
 		}
 	}
